@@ -16,7 +16,9 @@ RULE = ("cases = scenarios over the real client and server ends (tproxy method):
         "chosen server socket, frame delivered to the client, injected frames, ids occupied by other flows; corpus for "
         "expiry at 30 s -1/0/+1 tick, refresh of an overdue association, recv and sendto errors; every tenth random "
         "scenario uses MAX_CHANNEL in {2,3,4,6}; non-trivial = at least two distinct oracle events; "
-        "distinct = distinct (cfg, step list)")
+        "distinct = distinct (cfg, step list); every case runs the real code at a verbosity taken from the rotation "
+        "[0,0,3,0,2,0,13,1] shifted by the seed (13 = -vvv with a stderr whose write fails with EIO), stored in the "
+        "replay's cfg as v=N; the oracle does not depend on it; directed 0- and 1-byte datagrams in both directions")
 MANIFEST = dict(
     level_text=("Machine-checked Lean 4 theorems (core only) over a statement-by-statement model of onaccept_udp/udp_done/"
                 "expire_connections, udp_open/udp_req/UdpProxy, the server round + sweep and the header codec, for ALL scripts: "
